@@ -6,7 +6,8 @@
 (*          res = namespace of the event ([] when the plain call was used),*)
 (*          q = resolve_element then resolve_attribute for the pool,       *)
 (*          pf = prefixes()                                                *)
-(*  NsSkip  {k,e,s,p,q,pf}  read_to_end* / read_text right after a Start   *)
+(*  NsSkip  {k,e,s,p,q,pf}  read_to_end* / read_text on the innermost open *)
+(*          element (right after its Start or after some of its children)  *)
 (***************************************************************************)
 EXTENDS NsScope, TLC, Json, IOUtils
 
@@ -51,9 +52,10 @@ TRead == /\ IsRec("NsRead") /\ ~dead
 
 TSkip == /\ IsRec("NsSkip") /\ ~dead
          /\ \E dev \in DevSets :
-              LET k == NsSkip(inp, cfg, st, ns, dev, Slice(inp, lastStart.lo, lastStart.hi))
+              LET nm == IF st.opened = <<>> THEN <<>> ELSE Slice(inp, Last(st.opened).lo, Last(st.opened).hi)
+                  k == NsSkip(inp, cfg, st, ns, dev, nm)
                   rec == Rec[l] IN
-              /\ dev # {} => k # NsSkip(inp, cfg, st, ns, {}, Slice(inp, lastStart.lo, lastStart.hi))
+              /\ dev # {} => k # NsSkip(inp, cfg, st, ns, {}, nm)
               /\ dev # {} => PrintT(<<"DEVUSED", ToJson(dev)>>)
               /\ IF k.r.ok THEN /\ rec.k = "Span" /\ rec.s = <<k.r.start, k.r.end>> /\ rec.p = BufferPosition(k.r.st)
                                 /\ QueriesOk(k.ns, rec)
